@@ -71,7 +71,7 @@ Section Args.
           | Some n => scan r after (fset "--throttle" (FInt n) flags) pos
           | None => inl "--throttle takes one integer argument."
           end
-        else if negb after && prefix "--init" l then scan r after (fset "--init" (FStr (drop 7 l)) flags) pos
+        else if negb after && prefix "--init=" l then scan r after (fset "--init" (FStr (drop 7 l)) flags) pos
         else if negb after && prefix "-" l && Nat.ltb 1 (String.length l) then inl ("Unrecognized flag: " ++ a)
         else scan r after flags (pos ++ [l])
     end.
